@@ -5,9 +5,11 @@ package simh
 import (
 	"fmt"
 	"os"
+	"os/signal"
 	"runtime"
 	"strings"
 	"sync"
+	"syscall"
 	"testing"
 	"testing/synctest"
 	"time"
@@ -66,6 +68,7 @@ func RunBubble(t *testing.T, opt simrt.Options, caller func(), onLeak func(stack
 		body()
 		return res, leak
 	}
+	primeProcessWideMachinery()
 	func() {
 		defer func() {
 			if r := recover(); r != nil && leak == "" {
@@ -91,6 +94,7 @@ var knownG map[string]bool
 // (goroutines of aborted runs stay parked in it; that is expected).
 func InBubble(t *testing.T, body func()) (exit string) {
 	startHangWatchdog()
+	primeProcessWideMachinery()
 	defer func() {
 		inBubble, knownG = false, nil
 		if r := recover(); r != nil {
@@ -103,6 +107,21 @@ func InBubble(t *testing.T, body func()) (exit string) {
 		body()
 	})
 	return ""
+}
+
+var primeOnce sync.Once
+
+// primeProcessWideMachinery starts, outside any bubble, the lazily created process-wide
+// helpers of the runtime and standard library that code under test may touch: their
+// channels and goroutines must not belong to a bubble (os/signal: the runtime's signal-mask
+// goroutine selects on channels made at the first signal.Notify; made inside a bubble that is
+// a fatal "select on synctest channel from outside bubble").
+func primeProcessWideMachinery() {
+	primeOnce.Do(func() {
+		c := make(chan os.Signal, 1)
+		signal.Notify(c, syscall.SIGUSR2)
+		signal.Stop(c)
+	})
 }
 
 // bubbleGoroutines returns the ids of the goroutines of the current bubble.
